@@ -58,8 +58,15 @@ RULE = ("cases = (operation family, data shape/dtype/seed, data chunking, mask f
         "distinct = distinct (family, op, shapes, dtype, chunks, mask flavour, parameters).")
 ASSUMPTIONS = ["numpy.ma (NumPy 2.x) defines the expected data, mask, dtype and fill value",
                "sync scheduler (threads for a tenth)"]
-BUDGET = {"quick": 90, "thorough": 600}
-FLOORS = {"quick": {"evaluations": 1, "distinct_nontrivial": 1}, "thorough": {"evaluations": 1, "distinct_nontrivial": 1}}
+BUDGET = {"quick": 150, "thorough": 600}
+FLOORS = {"quick": {"evaluations": 2600, "distinct_nontrivial": 1700,
+                    "counters": {"compared": 2300, "with_allmasked_chunk": 550, "reference_has_masked_output": 900,
+                                 "reduce_with_fully_masked_cell": 90, "with_nomask": 80, "reference_masked_constant": 60},
+                    "max_skipped_fraction": 0.3},
+          "thorough": {"evaluations": 24000, "distinct_nontrivial": 20000,
+                       "counters": {"compared": 22000, "with_allmasked_chunk": 5500, "reference_has_masked_output": 9000,
+                                    "reduce_with_fully_masked_cell": 1300, "with_nomask": 1300},
+                       "max_skipped_fraction": 0.3}}
 EXHAUSTIVE_SPACE = ("all 4x2=8 chunkings of a (2,3) array x all 64 masks under sum(axis=None|0|1), filled() and "
                     "masked + plain")
 CLAIM = ("Every generated masked-array expression was computed by the real dask.array(.ma) and by numpy.ma on the same data, "
